@@ -591,3 +591,46 @@ func constantToRat(v constant.Value) (*big.Rat, bool) {
 	}
 	return nil, false
 }
+
+// ---------------------------------------------------------------- float-faithful terms
+
+// faithfulOp builds the node of one floating-point operation without algebraic normalisation.
+func faithfulOp(op token.Token, a, b *Term) (*Term, bool) {
+	switch op {
+	case token.ADD:
+		return fAdd(a, b), true
+	case token.SUB:
+		return fAdd(a, fNeg(b)), true // exact: x − y and x + (−y) round identically
+	case token.MUL:
+		if a.Key() > b.Key() {
+			a, b = b, a
+		}
+		return &Term{Op: "f*", Args: []*Term{a, b}}, true
+	case token.QUO:
+		return &Term{Op: "f/", Args: []*Term{a, b}}, true
+	}
+	return nil, false
+}
+
+func fAdd(a, b *Term) *Term {
+	if a.IsZero() {
+		return b // x + 0 = x exactly (the sign of zero is immaterial here)
+	}
+	if b.IsZero() {
+		return a
+	}
+	if a.Key() > b.Key() {
+		a, b = b, a
+	}
+	return &Term{Op: "f+", Args: []*Term{a, b}}
+}
+
+func fNeg(a *Term) *Term {
+	if a.Op == "fneg" {
+		return a.Args[0]
+	}
+	if a.Op == "c" {
+		return KR(new(big.Rat).Neg(a.C))
+	}
+	return &Term{Op: "fneg", Args: []*Term{a}}
+}
